@@ -135,7 +135,7 @@ RetRules(os, r) ==
       isCopy == c.f = "copy" /\ c.o \in 1..o.nobj /\ c.s \in 1..o.nobj /\ c.o # c.s
       targets == IF isCopy THEN {c.o, c.s} ELSE {c.o}
   IN ObjsRules(o.live, os, Len(os))
-     \o If(Shared(os), "SharedBuffer")
+     \o If(c.f # "borrow" /\ Shared(os), "SharedBuffer")      \* (a borrow is the client's own doing, not the library's)
      \o If(\E i \in 1..Len(os) : i \notin targets /\ os[i] # Pre(i), "BystanderChanged")
      \o (IF isCopy
          THEN If(os[c.s] # Pre(c.s), "CopySourceChanged")
